@@ -2,8 +2,8 @@
    Only statements, closed by [exact lemma], with Print Assumptions beneath. *)
 From Coq Require Import String List NArith ZArith Bool.
 From J5V.lib Require Import Text Outcome.
-From J5V.model Require Import BclLexer BclParser BclErrpos BclToFile.
-From J5V.proofs Require Import BclPosProofs BclLexerProofs BclParserProofs BclErrposProofs BclGenProofs BclBytesProofs BclParseBytesProofs BclToFileProofs.
+From J5V.model Require Import BclLexer BclParser BclErrpos BclErrposText BclToFile BclFmt.
+From J5V.proofs Require Import BclPosProofs BclLexerProofs BclParserProofs BclErrposProofs BclGenProofs BclBytesProofs BclParseBytesProofs BclToFileProofs BclFragWfProofs BclDepthProofs BclErrposTextProofs.
 Import ListNotations.
 
 (* [valid_pos data p]: p is the (line, column) of a rune of the input or of its end.
@@ -81,6 +81,13 @@ Theorem C11_render_total : forall lines context ds, is_panic (human_all lines co
 Proof. exact human_all_no_panic. Qed.
 Print Assumptions C11_render_total.
 
+(* ... and the text itself: ErrorsWithSource.HumanString(context) as bytes (Position / LIT lines, context lines
+   with %03d numbers and tabs widened, the caret line, Message, the ----- separator), built from the skeleton's
+   result, is always produced — for any diagnostics against any source bytes *)
+Theorem C11_render_text_total : forall input context ds, exists t, human_text_bytes input context ds = Ok t.
+Proof. exact human_text_bytes_ok. Qed.
+Print Assumptions C11_render_text_total.
+
 Theorem C11_full : C11_full_statement.
 Proof.
   intros data ff. split; [|split].
@@ -134,6 +141,20 @@ Print Assumptions C11_position_is_byte_offset.
 Theorem C11_to_file_index_in_bounds : forall fs, fragments_to_file_go fs = Ok (fragments_to_file fs).
 Proof. exact fragments_to_file_go_ok. Qed.
 Print Assumptions C11_to_file_index_in_bounds.
+
+(* the recursion of popValue (the only recursive routine of lexer, walker, fragmentsToFile, humanString) is
+   bounded: every array value of every file the walker accepts nests at most maxValueDepth deep, and the
+   constant of the code lies between 16 and 100000 (proofs/BclDepthProofs.v also evaluates the guard of the
+   code against the model's pop_value around the constant and the whole parser exactly at it) *)
+Theorem C11_array_nesting_bounded : forall data fs, collect_fragments data = Ok fs ->
+  Forall (fun f => match f with FAssign a => (vdepth (avalue a) <= max_value_depth)%N | _ => True end) fs.
+Proof. exact accepted_values_nest_within_bound. Qed.
+Print Assumptions C11_array_nesting_bounded.
+
+Theorem C11_nesting_bound_in_range :
+  N.leb 16 max_value_depth && N.leb max_value_depth 100000 = true /\ Z.of_N max_value_depth = J5V.gen.BclDepthGen.max_value_depth.
+Proof. exact max_value_depth_in_range. Qed.
+Print Assumptions C11_nesting_bound_in_range.
 
 (* the byte-level entry point is the rune-level one after []rune(input) *)
 Theorem C11_parse_file_is_parse_runes : forall input ff,
